@@ -31,7 +31,7 @@ def witness_search(tier, seed):
                                ("utf-8", "#TITLE:a;#NOTES:dance-single:d:Easy:1:0,0,0,0,0:0000;", ".sm"),
                                ("utf-8", "#VERSION:0.83;#TITLE:a;#NOTEDATA:;#STEPSTYPE:x;#NOTES:0000;", ".ssc")):
             for out, bak in ((None, None), (None, "bak" + ext), ("out" + ext, "bak" + ext)):
-                for what in ("raise-KeyboardInterrupt", "raise-ValueError", "cancel", "unserializable", "unencodable", "chart-without-notes", "backup-unopenable", "output-unopenable"):
+                for what in ("raise-KeyboardInterrupt", "raise-ValueError", "cancel", "unserializable", "unencodable", "chart-without-notes", "backup-unopenable", "output-unopenable", "unencodable-surrogate"):
                     cases.append((enc, text, ext, out, bak, what))
         for enc, text, ext, out, bak, what in cases:
             if what == "chart-without-notes" and ext != ".ssc":
@@ -74,6 +74,8 @@ def witness_search(tier, seed):
                         sf["SUBTITLE"] = 5
                     if what == "unencodable":
                         sf.title = "日本"
+                    if what == "unencodable-surrogate":
+                        sf.title = "name\udce9"       # a lone surrogate (os.fsdecode of an undecodable file name): no codec encodes it, UTF-8 included
                     if what == "chart-without-notes":
                         del sf.charts[0]["NOTES"]
             except BaseException as e:
